@@ -254,18 +254,20 @@ def write (l : Layer) (rest : List Layer) (inner : Bytes) (parent : Option Layer
     [b8 (label / 4096), b8 (label / 16), b8 (label % 16 * 16 + exp % 8 * 2 + s), b8 ttl] ++ inner
   | .dot3 dst src => dst ++ src ++ w16 (totalSz - 14) ++ inner
   | .snap control oui type =>
+    -- the tag is overwritten only when the inner PDU maps to a known EtherType (fix KF-C03-L2-1)
     let t := match nxt with
       | none => type
-      | some n => pduToEther n
+      | some n => if pduToEther n != 0 then pduToEther n else type
     [0xAA, 0xAA, b8 control] ++ [b8 (oui / 65536), b8 (oui / 256), b8 oui] ++ w16 t ++ inner
   | .loop family =>
     let f := match nxt.map Layer.kind with
       | some "ip" => 2 | some "ip6" => 10 | some "llc" => 26 | _ => family
     w32le f ++ inner
   | .sll ptype lltype lllen addr proto =>
+    -- the protocol is overwritten only when the inner PDU maps to a known EtherType (fix KF-C03-L2-2)
     let p := match nxt with
       | none => proto
-      | some n => pduToEther n
+      | some n => if pduToEther n != 0 then pduToEther n else proto
     w16 ptype ++ w16 lltype ++ w16 lllen ++ addr ++ w16 p ++ inner
   | .ah spi seq icv nh =>
     let nh := match nxt with
